@@ -409,6 +409,21 @@ class Flow:
     def _loop_impl(self, S, cond, body, inc, test_first, hv, decl):
         if self.dom.loop_mode(self, body) == "once" and test_first:
             return self._loop_once(S, cond, body, inc, hv, decl)
+        if self.dom.loop_mode(self, body) == "once" and not test_first:
+            # do { body } while (cond): one representative round, then out (whether the test held or not)
+            tag = "L%s" % (body.get("line") or "?")
+            o = self.stmt(body, self._havoc(S, hv, tag, decl, entry=True))
+            exits, rets = list(o.b), list(o.r)
+            nxt = o.n + o.c
+            if cond is not None and nxt:
+                T, F = self.cond(cond, nxt)
+                exits += F
+                exits += self._havoc(T, hv, tag + "'", decl)
+            else:
+                exits += nxt
+            out = Out(dedupe(exits))
+            out.r = rets
+            return out
         tag = "L%s" % (body.get("line") or cond and cond.get("line") or "?")
         seen = set()
         exits, rets = [], []
